@@ -1,6 +1,42 @@
-(* placeholder replaced below *)
+(* Props/C08.v — how the host slices continuation never changes the story.
+   (1) the single step of the continue loop is independent of the Story-level
+       loop bookkeeping (nesting counter, async flag, virtual clock): it commutes
+       with any update of those fields — for the whole interpreter model;
+   (2) whenever a time-limited run of the loop pauses, the unsliced run of the loop
+       from the same state passes through exactly the paused state, so the remaining
+       steps — and everything they produce — are the same;
+   (3) while a slice is unfinished the guarded calls are refused without effect. *)
 From Ink.Engine Require Import Api Tie.
-From Ink.Shell Require Import RejectProofs.
+From Ink.Shell Require Import Frame FrameStep Slicing RejectProofs.
+
+Theorem step_independent_of_loop_bookkeeping :
+  forall (a : bool) (r : N) (p : list N) (l : N) (I : iface) (sw : switches) (w : world),
+    continue_single_step I sw (shell_upd a r p l w) =
+    (let (o, w') := continue_single_step I sw w in (o, shell_upd a r p l w')).
+Proof. exact comm_continue_single_step. Qed.
+Check step_independent_of_loop_bookkeeping :
+  forall (a : bool) (r : N) (p : list N) (l : N) (I : iface) (sw : switches) (w : world),
+    continue_single_step I sw (shell_upd a r p l w) =
+    (let (o, w') := continue_single_step I sw w in (o, shell_upd a r p l w')).
+Print Assumptions step_independent_of_loop_bookkeeping.
+
+Theorem loop_passes_through_pause :
+  forall (I : iface) (sw : switches) n w r p l r' p' l' w1,
+    continue_loop I sw n (shell_upd true r p l w) = (OOk false, w1) ->
+    m_can_continue w1 = (OOk true, w1) ->
+    exists k, (k <= n)%nat /\ (0 < k)%nat /\
+      forall m, continue_loop I sw (k + m) (shell_upd false r' p' l' w)
+              = continue_loop I sw m (shell_upd false r' p' l' w1).
+Proof. exact Slicing.loop_passes_through_pause. Qed.
+Check loop_passes_through_pause :
+  forall (I : iface) (sw : switches) n w r p l r' p' l' w1,
+    continue_loop I sw n (shell_upd true r p l w) = (OOk false, w1) ->
+    m_can_continue w1 = (OOk true, w1) ->
+    exists k, (k <= n)%nat /\ (0 < k)%nat /\
+      forall m, continue_loop I sw (k + m) (shell_upd false r' p' l' w)
+              = continue_loop I sw m (shell_upd false r' p' l' w1).
+Print Assumptions loop_passes_through_pause.
+
 Theorem async_guard : forall (w : world), w_async w = true ->
   exists msg, if_async_we_cant w = (OErr InvalidState msg, w).
 Proof. exact RejectProofs.async_guard. Qed.
